@@ -37,6 +37,12 @@ fn far_label_cases(rng: &mut Rng, stack: bool) -> Vec<FileCase> {
                 ast.push(blkw(pad));
                 ast.push(fill(7).lab("target"));
                 out.push(FileCase { tag: format!("{}-{}-{}", tag, k, pos), ast: guard(ast), exec: false, stack_hint: stack, input: vec![] });
+                // the same with the label BEFORE the padding: the failing statement comes late in the emission order
+                let mut back: Vec<Item> = vec![fill(7).lab("target"), blkw(pad)];
+                let mut tail: Vec<Item> = (0..4).map(|_| add_r(rng.below(8) as i64, 0, 0)).collect();
+                tail[pos] = mk_pc(k, rng, "target");
+                back.extend(tail);
+                out.push(FileCase { tag: format!("{}-back-{}-{}", tag, k, pos), ast: guard(back), exec: false, stack_hint: stack, input: vec![] });
             }
         }
     }
